@@ -62,7 +62,7 @@ let rec close tol (a : ZT.t list) (b : ZT.t list) =
   | x :: ar, y :: br -> ZT.leq (ZT.abs (ZT.sub x y)) tol && close tol ar br
   | _ -> true   (* common prefix only: the counts are judged by count_ok *)
 
-let predict (c : string) (obs : string) : string * string * bool =
+let predict_seq (c : string) (obs : string) : string * string * bool =
   match parse_case c with
   | None -> ("unknown-case", "BAD:unknown-case", false)
   | Some (p, d, kappa) ->
@@ -107,5 +107,29 @@ let predict (c : string) (obs : string) : string * string * bool =
              ((if within then obs else mline), verdict ok why, nt)
            end
        | _ -> (mline, "BAD:implementation " ^ obs, false))
+
+(* conc <G> <rounds> <inner case>: the inner (sequential) observation is judged as above; the four
+   flags say that in every round the goroutines draining the un-Started schedule together saw ONE
+   start instant s (multiset of instants - s = the sequential tokens, same finish for all), with
+   s and every token not before the barrier release and s not after the first Next returned. *)
+let predict (c : string) (obs : string) : string * string * bool =
+  match split_blank c with
+  | "conc" :: g :: _rounds :: inner ->
+      let inner_c = String.concat " " inner in
+      (match split_blank obs with
+       | [a; b; c3; d; e; same; fin; lo; hi; detail] ->
+           let (p, v, nt) = predict_seq inner_c (String.concat " " [a; b; c3; d; e]) in
+           let why =
+             if v <> "ok" then String.sub v 4 (String.length v - 4)
+             else if lo <> "1" then "concurrent first Next: an operation (or the start instant) is scheduled before the schedule could have started " ^ detail
+             else if same <> "1" then "concurrent first Next: the tokens handed out are not the profile's tokens relative to one start instant " ^ detail
+             else if fin <> "1" then "concurrent first Next: goroutines disagree on the finish instant or Left() <> 0 " ^ detail
+             else if hi <> "1" then "concurrent first Next: start instant later than the return of the first Next " ^ detail
+             else "" in
+           (p ^ " 1 1 1 1 -", verdict (why = "") why, nt && int_of_string g >= 2)
+       | _ ->
+           let (p, _, _) = predict_seq inner_c "" in
+           (p ^ " 1 1 1 1 -", "BAD:implementation " ^ obs, false))
+  | _ -> predict_seq c obs
 
 let () = run_cases predict
